@@ -158,7 +158,14 @@ func c30RunHistory(t *testing.T, cfg c30Cfg, hist []c30Ev, keepLog bool) (res c3
 			defer w.mu.Unlock()
 			// (0) recorder anomalies (callbacks overlapping, callbacks after Close, ...)
 			for ; anomSeen < len(w.anom); anomSeen++ {
-				fail("policy-callback-protocol", "after %s: %s", ev, w.anom[anomSeen])
+				cl := "policy-callback-protocol"
+				switch a := w.anom[anomSeen]; {
+				case strings.HasPrefix(a, "not-serialized"):
+					cl = "policy-callbacks-not-serialized"
+				case strings.HasPrefix(a, "after-close"):
+					cl = "policy-callback-after-close"
+				}
+				fail(cl, "after %s: %s", ev, w.anom[anomSeen])
 			}
 			// (1) subchannel updates, per policy generation and subchannel
 			for _, p := range w.pols {
@@ -322,9 +329,15 @@ func c30RunHistory(t *testing.T, cfg c30Cfg, hist []c30Ev, keepLog bool) (res c3
 			switch e.Kind {
 			case c30EvExitIdle:
 				cc.Connect()
-			case c30EvConnect, c30EvShutdown:
+			case c30EvConnect, c30EvShutdown, c30EvConnFail, c30EvConnOK:
 				cmd := &c30Cmd{Kind: e.Kind, I: e.I}
 				w.mu.Lock()
+				switch e.Kind {
+				case c30EvConnFail:
+					w.inst[e.I] = 1
+				case c30EvConnOK:
+					w.inst[e.I] = 2
+				}
 				w.cmd = cmd
 				w.mu.Unlock()
 				mr.UpdateState(rstate) // runs the command inside the policy's UpdateClientConnState
@@ -447,18 +460,18 @@ func TestVerif_C30_StatesE4(t *testing.T) {
 	}
 
 	type plan struct {
-		cfg     c30Cfg
-		depth   int
+		cfg    c30Cfg
+		depth  int
 		hsFail bool
-		sym     bool
+		sym    bool
 	}
 	var plans []plan
 	if r.Thorough() {
 		plans = []plan{
-			{c30Cfg{1, false}, 8, true, false},
-			{c30Cfg{1, true}, 8, true, false},
-			{c30Cfg{2, false}, 7, true, false},
-			{c30Cfg{2, true}, 7, true, false},
+			{c30Cfg{1, false}, 9, true, false},
+			{c30Cfg{1, true}, 9, true, false},
+			{c30Cfg{2, false}, 8, true, true},
+			{c30Cfg{2, true}, 7, true, true},
 		}
 	} else {
 		plans = []plan{
@@ -476,7 +489,7 @@ func TestVerif_C30_StatesE4(t *testing.T) {
 		}
 		rule = append(rule, fmt.Sprintf("%v: every history of exactly %d events%s", p.cfg, p.depth, sy))
 	}
-	r.Rule(P, "event histories on a fresh real grpc.ClientConn (manual resolver with 1-2 addresses, recording LB policy with one SubConn per address, scripted blocking dialer, raw HTTP/2 server peers, idle timeout 2s, constant backoff 1s) inside a synctest bubble; alphabet {cc.Connect, policy sc[i].Connect, policy sc[i].Shutdown, dial[i] succeeds, dial[i] fails, dial[i] succeeds but the server closes without sending its HTTP/2 preface, server[i] GOAWAY, server[i] closes, advance 600ms, advance idle timeout, cc.Close}; only events applicable per the reference model (the first event of every history is necessarily cc.Connect, a time step or cc.Close: a fresh channel is idle); policy modes manual / auto (listener reconnects on IDLE). "+strings.Join(rule, "; ")+". The oracle is evaluated after every event (at quiescence). Non-trivial = distinct histories in which at least one connection attempt was resolved and at least 3 subchannel updates were checked")
+	r.Rule(P, "event histories on a fresh real grpc.ClientConn (manual resolver with 1-2 addresses, recording LB policy with one SubConn per address, scripted blocking dialer, raw HTTP/2 server peers, idle timeout 2s, constant backoff 1s) inside a synctest bubble; alphabet {cc.Connect, policy sc[i].Connect (dial then waits for the script), policy sc[i].Connect with the dial failing / succeeding at once (IDLE subchannels only; two updates in one step), policy sc[i].Shutdown, dial[i] succeeds, dial[i] fails, dial[i] succeeds but the server closes without sending its HTTP/2 preface, server[i] GOAWAY, server[i] closes, advance 600ms, advance idle timeout, cc.Close}; only events applicable per the reference model (the first event of every history is necessarily cc.Connect, a time step or cc.Close: a fresh channel is idle); policy modes manual (acts only on scripted commands) / auto (ExitIdle connects every IDLE subchannel, the listener reconnects on IDLE). "+strings.Join(rule, "; ")+". The oracle is evaluated after every event (at quiescence). Non-trivial = distinct histories in which at least one connection attempt was resolved and at least 3 subchannel updates were checked")
 
 	var evals, nontriv, updates, tfidle, postshut, chanchk, watchobs int64
 	subTrans, chanTrans := map[string]int64{}, map[string]int64{}
@@ -512,7 +525,7 @@ func TestVerif_C30_StatesE4(t *testing.T) {
 			}
 			resolved := false
 			for _, e := range h {
-				if e.Kind == c30EvDialOK || e.Kind == c30EvDialFail || e.Kind == c30EvDialHSFail {
+				if e.Kind == c30EvDialOK || e.Kind == c30EvDialFail || e.Kind == c30EvDialHSFail || e.Kind == c30EvConnFail || e.Kind == c30EvConnOK {
 					resolved = true
 				}
 			}
@@ -539,7 +552,9 @@ func TestVerif_C30_StatesE4(t *testing.T) {
 	}
 	r.Eval(P, evals)
 	r.NontrivialN(P, nontriv)
-	r.AddInt(P, "e4_histories_total_all_shards", int64(idx)/int64(max(1, nshards(r))))
+	if s, _ := r.Shard(); s == 0 {
+		r.AddInt(P, "e4_histories_enumerated", int64(idx))
+	}
 	r.AddInt(P, "e4_subchannel_updates_checked", updates)
 	r.AddInt(P, "e4_tf_to_idle_backoff_checks", tfidle)
 	r.AddInt(P, "e4_post_shutdown_checks", postshut)
@@ -556,8 +571,6 @@ func TestVerif_C30_StatesE4(t *testing.T) {
 	r.Assume(P, "history leg: the reference model (c30_model_test.go) is written from the statement and the gRPC connectivity-semantics document; CONNECTING->IDLE is accepted only for a connection that was established and lost within one step (documented grpc-go behaviour, issue 7862)")
 	r.Assume(P, "history leg: events are issued at quiescence (synctest.Wait), so at most one environment event is in flight; interleavings inside one step are those the Go scheduler produces with GOMAXPROCS=1 (schedule coverage is the E1 leg's job); no RPCs are made, the channel enters idle purely by timeout")
 }
-
-func nshards(r *vk.Run) int { _, n := r.Shard(); return n }
 
 func c30SortedCounts(m map[string]int64) map[string]int64 {
 	// maps are marshalled with sorted keys; copy to keep the caller's map private
